@@ -180,6 +180,20 @@ def gen(rng, tier):
             cases.append("err x%s 0 x" % v.encode().hex())
     for code in range(100, 1000):
         cases.append("conn %d" % code)
+    # the close marking must not depend on what the handler put into the response: user-supplied header fields,
+    # in particular a `connection` field of its own (any case, any value)
+    def hx(t):
+        return "x" + t.encode().hex()
+    user = [("connection", "keep-alive"), ("Connection", "Keep-Alive"), ("CONNECTION", "upgrade"),
+            ("x-a", "b"), ("keep-alive", "timeout=5"), ("cache-control", "no-store")]
+    for code in [100, 199, 200, 204, 301, 404, 499, 500, 501, 502, 503, 504, 550, 598, 599, 600, 999]:
+        for (n, v) in user:
+            cases.append("conn %d %s %s" % (code, hx(n), hx(v)))
+        cases.append("conn %d %s %s %s %s" % (code, hx("x-a"), hx("b"), hx("Connection"), hx("keep-alive")))
+    for _ in range(300 if tier == "quick" else 5000):
+        code = rng.choice([rng.randint(100, 999), rng.randint(480, 620)])
+        hs = [rng.choice(user) for _ in range(rng.randint(1, 3))]
+        cases.append("conn %d %s" % (code, " ".join("%s %s" % (hx(n), hx(v)) for n, v in hs)))
     # codes outside 100..999 are not in the property's range but exercise the close rule's edges
     for code in (0, 1, 99, 1000, 65535):
         cases.append("conn %d" % code)
